@@ -104,7 +104,11 @@ def norm(x):
     if isinstance(x, list):
         return [norm(y) for y in x]
     if isinstance(x, tuple):
-        return tuple(norm(y) if not isinstance(y, str) else y for y in x)
+        t = tuple(norm(y) if not isinstance(y, str) else y for y in x)
+        # Coq prints left-nested pairs flat: ((a, b), c) = (a, b, c)
+        while len(t) >= 2 and t[0] == "" and isinstance(t[1], tuple) and len(t[1]) >= 1 and t[1][0] == "":
+            t = ("",) + t[1][1:] + t[2:]
+        return t
     return x
 
 
